@@ -23,6 +23,8 @@ Definition c_fresh (c : cache) (mbf : bool) (e : csent) : bool := negb mbf || (c
 (* time passes / capacity is set *)
 Definition c_adv (c : cache) (d : N) : cache := mkcache (c_now c + Z.of_N d) (c_list c) (c_cap c).
 Definition c_setcap (c : cache) (k : Z) : cache := mkcache (c_now c) (c_list c) (cap_of_int k).
+(* capacity set through the management command: refused above the int range *)
+Definition c_mgmtcap (c : cache) (u : N) : cache := if (max_int <? u)%N then c else c_setcap c (Z.of_N u).
 
 (* insertion: a refresh moves the entry to the most-recent end; a new name is appended and then the least recently
    used entries are dropped until at most the CURRENT capacity remain *)
@@ -80,6 +82,7 @@ Definition cache_step (c : cache) (ad : bool) (o : op) (r : res) : cache :=
   | OData n w f _ => if ad then c_insert c n w f else c
   | OTick => c
   | ODnl => c
+  | OMgmtCap u => c_mgmtcap c u
   end.
 
 (* a history seen from the cache: each element is (csAdmit flag, operation, what the step answered) *)
